@@ -2,7 +2,7 @@
 from __future__ import annotations
 
 from sa.effects import Effects, all_events
-from sa.terms import C, CallT, P, SubC, access_path, is_call, is_const, root_of, show
+from sa.terms import C, CallT, P, SubC, access_path, is_call, is_const, is_lit, root_of, show
 from sa.walker import flatten_events
 
 from . import fn_site
@@ -171,6 +171,12 @@ def _signer_callers(ctx, rule="R7"):
                 sig = SubC(E, "signatures")
                 for ev, d in flatten_events(p.events):
                     if d != 0:
+                        continue
+                    signed = SubC(E, "signed")
+                    stale = any(f[0] == "ne" and signed in (f[1], f[2]) for f in p.facts) or any(f[0] == "ret" and f[2] is True and is_call(f[1]) and f[1][1].startswith("repo:") and "modified" in f[1][1] and "signed" in f[1][1] for f in p.facts)
+                    if ev[0] == "store" and ev[2] == sig and stale and is_lit(ev[3], "dict") and not ev[3][2]:
+                        # the signed part was found to differ from the contents the present signatures
+                        # were made over: they are void already, dropping them alters no valid signature
                         continue
                     if ev[0] == "store" and ev[2] == sig and not _mentions(ev[3], sig):
                         # (a new map built from the old one - dict(old), {**old} - keeps the entries)
